@@ -80,13 +80,40 @@ def _gate(ck, p, byk):
     cfg = Cfg(f)
     pv = Prov(f)
     sites = []
+    n_closure_sites = [0]
     for bi, t in f.calls():
         if def_of(t) == "harper_core::linting::Linter::lint":
             sites.append((bi, t, "Linter::lint", t["args"][0]))
         elif inst_of(t) == "harper_core::linting::pattern_linter::run_on_chunk":
             sites.append((bi, t, "run_on_chunk", t["args"][0]))
+    # a rule invocation inside a closure of an adaptor chain: linters.iter_mut().filter(gate).flat_map(|(_, l)| l.lint(doc))
+    for c in p.closures_of(f.name):
+        for cb, ct in c.calls():
+            what = "Linter::lint" if def_of(ct) == "harper_core::linting::Linter::lint" else ("run_on_chunk" if inst_of(ct) == "harper_core::linting::pattern_linter::run_on_chunk" else None)
+            if what is None:
+                continue
+            key = "LintGroup::lint:%s" % what
+            ck.callsites += 1
+            n_closure_sites[0] += 1
+            gated = False
+            for pb, pt in f.calls():
+                if method(pt) in ("flat_map", "map", "for_each", "filter_map") and any(x[0] == "agg" and x[1] == "closure" and x[2] == c.name for x in pv.trace_operand(pt["args"][-1])):
+                    for o in arg_roots(f, pv, pt["args"][0]):
+                        if o[0] == "call" and method_of(o) == "filter":
+                            ft = f.blocks[o[1]]["t"]
+                            for x in pv.trace_operand(ft["args"][-1]):
+                                if x[0] == "agg" and x[1] == "closure" and x[2] in p.fns:
+                                    fc = p.fns[x[2]]
+                                    fpv = Prov(fc)
+                                    gs = [(gb, gt) for gb, gt in fc.calls() if inst_of(gt) == "harper_core::linting::lint_group::{impl}::is_rule_enabled"]
+                                    if gs and any(o2[0] == "call" and any(o2[1] == gb for gb, _ in gs) for o2 in flatten(fpv.trace_local(0))) and any(any(y[0] == "arg" and y[1] == 2 for y in arg_roots(fc, fpv, gt["args"][1])) for _, gt in gs):
+                                        gated = True
+            if gated:
+                ck.proved(rule, key, c.loc(ct["ln"]), "%s runs in an adaptor closure over the rules that passed filter(|(key, _)| config.is_rule_enabled(key))" % what)
+            else:
+                ck.undecided(rule, key, c.loc(ct["ln"]), "%s runs in a closure of an adaptor chain; no filter by is_rule_enabled(key) recognised in front of it" % what)
     ck.callsites += len(sites)
-    ck.floor(rule, "rule invocations in LintGroup::lint", len(sites), 2)
+    ck.floor(rule, "rule invocations in LintGroup::lint", len(sites) + n_closure_sites[0], 2)
     is_gate = lambda t: inst_of(t) == "harper_core::linting::lint_group::{impl}::is_rule_enabled"
     for bi, t, what, lin in sites:
         key = "LintGroup::lint:%s" % what
